@@ -198,8 +198,11 @@ def run(ctx):
                 continue
             model = float(unq(val)) * math.pi ** pi_power(cls)
             dxmin = min((b[1] - b[0]) / n for b, n in zip(g["bounds"], g["shape"]))
-            scale = 1.0 + abs(model) + rr["max"] * 100 + float(np.abs(c["data"]).max()) / dxmin ** 2
-            if abs(model - rr["integral"]) > 1e-10 * scale:
+            valid = tuple([slice(None)] * c["rank"] + [slice(1, -1)] * len(g["shape"]))
+            vmax = float(np.abs(c["data"][valid]).max()) if c["data"][valid].size else 0.0  # not the ghost-cell markers
+            nvol = float(np.prod([b[1] - b[0] for b in g["bounds"]])) * (1.0 + abs(g["bounds"][0][1]) ** (2 if cls == "sph" else 1 if cls != "cart" else 0))
+            scale = 1.0 + abs(model) + (rr["max"] + vmax / dxmin ** 2) * nvol
+            if not (abs(model - rr["integral"]) <= 1e-11 * scale):
                 ctx.disagree("integral:" + rname, key, model, rr["integral"], "volume-weighted sum differs")
 
     # ---- zero leg: the property monitor --------------------------------------------------------
@@ -216,18 +219,22 @@ def run(ctx):
         kw = {}
         if op == "divergence" and cls == "sph":
             kw = {"conservative": True}
+        if op == "laplace" and cls == "cart" and len(gd["shape"]) == 2 and rng.random() < 0.5:
+            kw = {"corner_weight": rng.choice([0.5, 1 / 3, 0.25])}  # documented 9-point stencils
         zjobs.append((gd, op, rng.randint(0, 10 ** 6), kw))
     res_z = run_many("harness.c05", "zero_case", zjobs, env={"NUMBA_DISABLE_JIT": "1"}, procs=16)
     for (gd, op, seed, kw), rr in zip(zjobs, res_z):
         key = {"grid": gd, "op": op, "seed": seed}
         ctx.count(key, nontrivial=True, leg="zero")
         ctx.hist("zero", f"{CLS[gd['cls']]}:{op}:{len(gd['shape'])}d:{'hole' if CLS[gd['cls']] != 'cart' and gd['bounds'][0][0] else 'full'}:{'periodic' if any(gd['periodic']) else 'walls'}")
+        if "corner_weight" in kw:
+            ctx.hist("zero-9-point", f"periodic={gd['periodic']}")
         ctx.monitor_evals += 1
         if isinstance(rr, str):
             ctx.disagree("zero", key, "runs", rr[-500:], "real code raised")
             continue
         val, scale, mx = rr
-        if abs(val) > 1e-10 * max(scale, 1e-300):
+        if not (abs(val) <= 1e-10 * max(scale, 1e-300)):
             ctx.monitor_fail("zero", dict(key, kw=kw), {"integral": val, "scale": scale, "max_abs_result": mx},
                              "|integral| <= 1e-10*scale", f"{CLS[gd['cls']]} {op}: conserving conditions do not integrate to zero",
                              key={"cls": CLS[gd["cls"]], "op": op})
@@ -275,17 +282,30 @@ def run(ctx):
             ctx.disagree("sim", key, "runs", rr if isinstance(rr, str) else rr["error"], "simulation failed")
             continue
         # scale = largest sum(volume*|state|) seen so far (an unstable run may grow by many orders of magnitude)
-        dev, bad_dev, sc = 0.0, False, rr["scale"]
-        for rec_ in rr["rec"]:
-            sc = max(sc, rec_[2]) if np.isfinite(rec_[2]) else sc
-            d_ = abs(rec_[1] - rr["i0"])
-            if np.isfinite(rec_[1]) and d_ > 1e-9 * sc:
-                bad_dev = True
-            dev = max(dev, d_ / sc if np.isfinite(d_) else 0.0)
+        dev, bad_dev, sc, judged = judge_sim(rr)
+        if judged < len(rr["rec"]):
+            ctx.hist("sim-unstable", f"{eqname}:{solver}: blow-up after {judged} records (not judged beyond)")
         if bad_dev or len(rr["rec"]) < 2:
             ctx.monitor_fail("sim", key, {"initial": rr["i0"], "recorded": rr["rec"][:8], "max_relative_deviation": dev},
                              "integral constant at every step", f"{eqname} with {solver}/{backend}: integral drifts",
                              key={"eq": eqname, "solver": solver, "backend": backend})
+
+
+def judge_sim(rr):
+    """(max relative deviation, drift?, scale, number of judged records).  The scale is the largest sum(volume*|state|)
+    seen so far; a non-finite integral is a drift; records after a numerical blow-up (state grown by more than 1e6 or
+    non-finite) are not judged - conservation in floating point is not decidable there"""
+    dev, bad, sc, judged = 0.0, False, rr["scale"], 0
+    for rec_ in rr["rec"]:
+        if not np.isfinite(rec_[2]) or rec_[2] > 1e6 * max(rr["scale"], 1e-300):
+            break
+        judged += 1
+        sc = max(sc, rec_[2])
+        d_ = abs(rec_[1] - rr["i0"])
+        if not (d_ <= 1e-9 * sc):
+            bad = True
+        dev = max(dev, d_ / sc if np.isfinite(d_) else float("inf"))
+    return dev, bad, sc, judged
 
 
 def replay(ctx, rep):
@@ -297,10 +317,7 @@ def replay(ctx, rep):
     if rep["leg"] == "sim":
         rr = sim_case((c["eq"], c["grid"], c["solver"], c["backend"], c["adaptive"], c["dt"], c["steps"], c["seed"], c.get("solver_options", {})))
         print(rr)
-        sc, ok = rr["scale"], True
-        for rec_ in rr["rec"]:
-            sc = max(sc, rec_[2])
-            ok = ok and abs(rec_[1] - rr["i0"]) <= 1e-9 * sc
-        return ok
+        dev, bad, sc, judged = judge_sim(rr)
+        return not bad and len(rr["rec"]) >= 2
     print(c)
     return False
